@@ -12,6 +12,7 @@ package ggql
 //@ func (*Root).ParseString
 //@   props C03
 //@   check panic {C03}
+//@   requires[ghost-counters-nonnegative] resolvedNonNeg()
 //@   requires[created-by-NewRoot] recv.types != nil && recv.dirs != nil
 //@   requires[finite-input] #rd <= #N
 //@   requires recv != nil
@@ -19,6 +20,7 @@ package ggql
 //@ func (*Root).Parse
 //@   props C03
 //@   check panic {C03}
+//@   requires[ghost-counters-nonnegative] resolvedNonNeg()
 //@   requires[created-by-NewRoot] recv.types != nil && recv.dirs != nil
 //@   requires[finite-input] #rd <= #N
 //@   requires recv != nil
@@ -26,6 +28,7 @@ package ggql
 //@ func (*Root).ParseFS
 //@   props C03
 //@   check panic {C03}
+//@   requires[ghost-counters-nonnegative] resolvedNonNeg()
 //@   requires[created-by-NewRoot] recv.types != nil && recv.dirs != nil
 //@   requires fsys != nil
 //@   requires[finite-input] #rd <= #N
@@ -48,11 +51,6 @@ package ggql
 //@   check panic {C03}
 //@   requires recv != nil
 
-//@ func (*Root).replaceTypeRefs
-//@   props C03
-//@   check panic {C03}
-//@   requires recv != nil
-//@   requires t != nil && ptrval(t) != 0
 
 //@ func (*Root).replaceFieldRefs
 //@   props C03
